@@ -48,9 +48,10 @@ CHECKS = {
               "x 1-6 generated requests (8 classes: acceptable, no-reply functions, every unsupported function code, bad header flags, unparsable objects, header rejected for the function at first/middle/last/only position, unexpected objects); "
               "rules S1-S5 evaluated on every transmitted fragment; distinct = (state, request class incl. function code and position, deferred/now) tuples in which a rule was evaluated; "
               "part T (READ selection table): one READ per (group, variation) the library knows (and ten it does not) x {all objects, 8/16-bit range, 8/16-bit count} against a database with three points and events of every type: "
-              "objects of the requested group only (none for groups without a point type), the requested variation (or its promotion), inside the range, within the count, exact selection for default-variation static READs"),
+              "objects of the requested group only (none for groups without a point type), the requested variation (or its promotion), inside the range, within the count, exact selection for default-variation static READs; "
+              "part L (header limit): READs with limit+0/1/2/5 one-point headers for limits 1, 3, 64 (default), 65, 80, answered at once and deferred behind the null unsolicited response: served in full at the limit, an IIN2 error bit whenever fewer objects come back than headers were sent"),
         runs=[dict(check="c12", scale=10, timeout_s=900)],
-        required=["T_read_table_ok", "T_static_selection_exact_ok", "T_no_objects_for_groups_without_points_ok", "S1_seq_ok", "S3_no_reply_ok", "S4_size_ok", "S4_parse_ok", "S5_error_reported", "unsol_fragments_checked", "unsol_seq_consecutive", "series_continuations", "deferred_reads", "state_sol_confirm_wait_reached", "S2_application_value_ok", "S2_restart_not_supported_ok"],
+        required=["L_over_limit_reported_deferred", "L_over_limit_reported_at-once", "L_at_limit_served_in_full_deferred", "T_read_table_ok", "T_static_selection_exact_ok", "T_no_objects_for_groups_without_points_ok", "S1_seq_ok", "S3_no_reply_ok", "S4_size_ok", "S4_parse_ok", "S5_error_reported", "unsol_fragments_checked", "unsol_seq_consecutive", "series_continuations", "deferred_reads", "state_sol_confirm_wait_reached", "S2_application_value_ok", "S2_restart_not_supported_ok"],
         thorough_scale=25.0,
         abnormal_exit_is_violation=True,
         assumptions=HARNESS_TRUST,
